@@ -57,6 +57,27 @@ def capacity(
     return fin(ok)
 
 
+def multi(
+    c0: int, c1: int, rev: bool,
+    s0: int, s1: int, s2: int, s3: int, s4: int, s5: int, s6: int, s7: int,
+) -> bool:
+    """Two scheduler processes sharing the token directory: whatever the
+    delivery order of filesystem notifications, exits and helper threads, the
+    running jobs never hold more than the total (neither by the requests of
+    running jobs nor by the counts recorded in the token files).
+
+    post: _
+    """
+    A, B = schedlib.duo(SHARD, c0, c1, rev, [s0, s1, s2, s3, s4, s5, s6, s7])
+    ok = not A.violations and not B.violations
+    if not ok:
+        rt.note("FAIL:", A.violations + B.violations)
+    if A.hung or B.hung:
+        ok = False
+    rt.scratch_cleanup()
+    return fin(ok)
+
+
 def _filecombos(n, maxtotal):
     out = []
     for total in range(1, maxtotal + 1):
@@ -87,11 +108,16 @@ def conditions(tier):
         conds.append({"name": f"file/indep2-t{total}r{''.join(map(str, reqs))}", "func": "capacity", "shard": {"shape": "indep2", "K": K, "token": [1, 1], "token_kind": "file", "total": total, "reqs": reqs}, "timeout": tmo})
     if tier == "thorough":
         conds.append({"name": "file/indep3-t2r111", "func": "capacity", "shard": {"shape": "indep3", "K": K, "token": [1, 1, 1], "token_kind": "file", "total": 2, "reqs": [1, 1, 1]}, "timeout": tmo})
+    for total, reqs in ((1, [1, 1]), (2, [1, 2]), (3, [2, 2])) if tier == "quick" else _filecombos(2, 3):
+        c = {"name": f"multi/t{total}r{''.join(map(str, reqs))}", "func": "multi", "shard": {"total": total, "reqs": reqs, "K": 4 if tier == "quick" else 7, "multi": 1}, "timeout": tmo}
+        conds.extend(schedlib.with_prefixes(c, 2))
     conds.append({"name": "file/indep2-t3r21", "func": "capacity", "shard": {"shape": "indep2", "K": K, "token": [1, 1], "token_kind": "file", "total": 3, "reqs": [2, 1]}, "timeout": tmo})
     heavy = ("indep2", "join3", "indep3", "mixed3", "diamond4", "fork3", "two2")
     out = []
     for c in conds:
-        if c["shard"].get("token2"):
+        if c["shard"].get("multi"):
+            out.append(c)
+        elif c["shard"].get("token2"):
             out.extend(schedlib.with_prefixes(c, 2 if tier == "quick" else 4))
         elif c["shard"].get("shape") in heavy and c["shard"].get("token_kind") != "file":
             out.extend(schedlib.with_prefixes(c, 2 if tier == "quick" else 3))
